@@ -78,10 +78,15 @@ func c01Spaces(c *explore.Ctx) []wordSpace {
 	}
 	bases := []string{"E", "CH", "CC", "SP", "ML", "HO"}
 	if c.Thorough() {
-		for _, b := range []string{"LCS", "LCM", "FL", "FL2"} {
+		for _, b := range []string{"LCS", "LCM", "FL", "FL2", "FL3", "MS", "SC"} {
 			add(b, "BIGC", 0, 3)
 			add(b, "ROLL", 0, 2)
 		}
+		for _, b := range []string{"S2", "S3", "S4", "RU"} {
+			add(b, "ROLL", 0, 4)
+		}
+		add("E", "ROLL", 0, 5)
+		add("E", "BIGC", 0, 5)
 		for _, b := range bases {
 			add(b, "BIGC", 0, 4)
 			add(b, "ROLL", 0, 4)
